@@ -261,9 +261,8 @@ def universe(prog, fn_chain=None):
 
 def use_members(mod):
     """a stored **kwargs is unpacked when the member is used: use every such member of every object that was built"""
-    objs = list(mod.OBJS)
-    mod.OBJS.clear()
-    for obj, member in objs:
+    while mod.OBJS:  # using a member can build further objects that store their **kwargs
+        obj, member = mod.OBJS.pop(0)
         v = getattr(obj, member)  # a property is evaluated here
         if callable(v):
             v()
@@ -352,7 +351,9 @@ def alpha_resolved(params, vals):
     out = []
     for p in params:
         ko = p.kind == inspect.Parameter.KEYWORD_ONLY
-        comp = p.component[0] if isinstance(p.component, tuple) else p.component
+        comp = p.component
+        while isinstance(comp, tuple):  # a conditional parameter lists the defs of all its uses (nested when regrouped)
+            comp = comp[0]
         o = _owner(comp, ko)
         out.append({"n": p.name, "t": _tcode(p.annotation), "d": _dcode(p.default, o, p.name, vals), "o": o,
                     "kind": "ko" if ko else ("pk" if p.kind == inspect.Parameter.POSITIONAL_OR_KEYWORD else str(p.kind)),
@@ -608,7 +609,7 @@ def classify(rep, prog, comp, exp, obs, source, how):
             if seen != want:
                 rep.add_drift("resolver result agrees with Ref but not with the Alg transcription (order / kind / origin / conditional)",
                               {"observed": seen, "alg": want, "shape": shape})
-        if obs.get("ast_same") is not True and dev != "cond-regroup":
+        if obs.get("ast_same") is not True:
             rep.add_drift("the AST resolver was not the one that answered", {"ast_same": obs.get("ast_same"), "shape": shape})
     po = obs.get("parser")
     if po is not None:
@@ -964,7 +965,7 @@ def main(argv):
             rep.violation(key, f"random program: clause {c} of Trace_Resolver fails [{shape}]", case)
         if "alg" in clauses and not ref_fail:
             rep.add_drift("resolver result agrees with Ref but not with the Alg transcription", {"shape": shape, "observed": rec.get("resolved")})
-        if rec.get("ast_same") is not True and dev != "cond-regroup":
+        if rec.get("ast_same") is not True:
             rep.add_drift("the AST resolver was not the one that answered", {"ast_same": rec.get("ast_same"), "shape": shape})
         # (3) is decided by the real code alone: instantiating with everything that was offered must not raise
         inst = rec.get("inst")
